@@ -1,5 +1,6 @@
 /- C14: what each BIP9 state certifies about the chain's own history (Spec-level). -/
 import BV.C14.Spec
+import BV.C14.Warn
 namespace BV.C14.Char
 open Spec
 
@@ -106,5 +107,39 @@ theorem failed_certifies (net : Net) (d : Dep) (n : Node) :
     · exact ⟨k + 1, by omega, by omega, hs⟩
     · obtain ⟨j, h1, h2, h3⟩ := failed_certifies net d n k hp
       exact ⟨j, h1, by omega, h3⟩
+
+/-! the unknown-rules warning machine -/
+
+theorem warn_lockedIn_certifies (net : Net) (deps : List Dep) (bit : Nat) (n : Node) :
+    ∀ k, Warn.winState net deps bit n k = .lockedIn →
+      ∃ j, 1 ≤ j ∧ j ≤ k ∧ net.threshold ≤ Warn.votes net deps bit net.window (bnd net n j)
+  | 0, h => by simp [Warn.winState] at h
+  | k + 1, h => by
+    simp only [Warn.winState] at h
+    cases hp : Warn.winState net deps bit n k <;> rw [hp] at h <;> simp only [Warn.step] at h
+    · cases h
+    · by_cases hv : net.threshold ≤ Warn.votes net deps bit net.window (anc n ((k + 1) * net.window))
+      · exact ⟨k + 1, by omega, by omega, hv⟩
+      · simp [hv] at h
+    · obtain ⟨j, h1, h2, h3⟩ := warn_lockedIn_certifies net deps bit n k hp
+      exact ⟨j, h1, by omega, h3⟩
+    · cases h
+    · cases h
+
+theorem warn_active_certifies (net : Net) (deps : List Dep) (bit : Nat) (n : Node) :
+    ∀ k, Warn.winState net deps bit n k = .active →
+      ∃ j, 1 ≤ j ∧ j < k ∧ net.threshold ≤ Warn.votes net deps bit net.window (bnd net n j)
+  | 0, h => by simp [Warn.winState] at h
+  | k + 1, h => by
+    simp only [Warn.winState] at h
+    cases hp : Warn.winState net deps bit n k <;> rw [hp] at h <;> simp only [Warn.step] at h
+    · cases h
+    · by_cases hv : net.threshold ≤ Warn.votes net deps bit net.window (anc n ((k + 1) * net.window)) <;>
+        simp [hv] at h
+    · obtain ⟨j, h1, h2, h3⟩ := warn_lockedIn_certifies net deps bit n k hp
+      exact ⟨j, h1, by omega, h3⟩
+    · obtain ⟨j, h1, h2, h3⟩ := warn_active_certifies net deps bit n k hp
+      exact ⟨j, h1, by omega, h3⟩
+    · cases h
 
 end BV.C14.Char
